@@ -152,7 +152,7 @@ def run_gulp(case, ctx, rng):
       data = routes.write_tab(routes.pair_tab_api(model)).encode()
     elif route == "api_legacy":
       import atsim.potentials as ap
-      out = io.StringIO()
+      out = routes.text_sink()
       ap.writePotentials("GULP", routes.pair_potentials_api(model), cutoff, nr, out)
       data = out.getvalue().encode()
     else:
@@ -287,7 +287,7 @@ def run_funcfl(case, ctx, rng):
     return
   try:
     pots, eams = routes.vary_containers(model, routes.eam_api_objects(model)[:2])
-    out = io.StringIO()
+    out = routes.text_sink()
     ap.writeFuncFL(nrho, drho_f, nr, dr_f, eams, pots, out, case["title"])
     text = out.getvalue()
   except Exception as e:
